@@ -265,6 +265,28 @@ def build_jobs(ctx, rng):
                 {"func": func, "params": params, "H": PH, "W": PW, "vals": base, "dtype": "float64",
                  "radius": list(rad), "chunkings": chs, "kh": kh, "kw": kw, "passes": params.get("passes", 1),
                  "xs": None, "ys": None, "res": None})
+    # offset family for the global statistics, appended last with its own generator so that the streams of the jobs
+    # above are unchanged: hotspots / equal_interval on 30000 +- 20 (a single-precision or one-pass global std /
+    # min-max on one backend shows only when the offset dwarfs the spread), float32 and float64, every must-chunking
+    rng2 = random.Random(ctx.seed * 7 + 4242)
+    for dt in ("float32", "float64"):
+        for (H2, W2) in ((6, 7), (5, 8)):
+            vals = [[float(30000 + rng2.randrange(-20, 21)) for _ in range(W2)] for _ in range(H2)]
+            if (H2, W2) == (5, 8):
+                # a cubic ramp instead of noise: heavy tails, z-scores spread densely over +-2.6, so a global std that
+                # is off by a few per cent moves cells across the 1.65 / 1.96 / 2.58 confidence thresholds
+                H2, W2 = 16, 16
+                n2 = H2 * W2
+                vals = [[float(30000 + round(20 * ((2.0 * (r * W2 + c) / (n2 - 1) - 1.0) ** 3))) for c in range(W2)]
+                        for r in range(H2)]
+            chs = [{"rows": r, "cols": c, "sched": "synchronous", "nw": 1}
+                   for r, c in (([H2], [W2]), ([1] * H2, [1] * W2), ([H2 // 2, H2 - H2 // 2], [W2]),
+                                ([H2], [W2 // 2, W2 - W2 // 2]), ([2, H2 - 2], [3, W2 - 3]))]
+            for func, params in (("hotspots", {"kernel": KERNELS["k3x3"]}), ("equal_interval", {"k": 4})):
+                jobs.setdefault(func, []).append(
+                    {"func": func, "params": params, "H": H2, "W": W2, "vals": vals, "dtype": dt, "radius": [1, 1],
+                     "chunkings": chs, "kh": 3 if func == "hotspots" else 1, "kw": 3 if func == "hotspots" else 1,
+                     "passes": 1, "xs": None, "ys": None, "res": None})
     return jobs
 
 
